@@ -317,3 +317,15 @@ def smoothAxis {α} (o : Ops α) (a : Arr α) (ax : Nat) : Arr α :=
 def smooth3 {α} (o : Ops α) (a : Arr α) : Arr α :=
   (List.range a.shape.length).foldl (fun acc ax => smoothAxis o acc ax) a
 end Pm.C01
+
+namespace Pm.C01
+/-- valid grid rotation of a 3-D shape: a permutation of the axes under which the shape is invariant -/
+def GridOk3 (R : GridRot) (a b c : Nat) : Prop :=
+  (∃ f0 f1 f2, R.flip = [f0, f1, f2]) ∧
+  ((R.perm = [0,1,2]) ∨ (R.perm = [0,2,1] ∧ b = c) ∨ (R.perm = [1,0,2] ∧ a = b) ∨
+   (R.perm = [1,2,0] ∧ a = b ∧ b = c) ∨ (R.perm = [2,0,1] ∧ a = b ∧ b = c) ∨ (R.perm = [2,1,0] ∧ a = c))
+
+def GridOk2 (R : GridRot) (a b : Nat) : Prop :=
+  (∃ f0 f1, R.flip = [f0, f1]) ∧ ((R.perm = [0,1]) ∨ (R.perm = [1,0] ∧ a = b))
+
+end Pm.C01
